@@ -1022,7 +1022,7 @@ func main() {
 		"(3) random go/ast trees (every supported node type, random tokens incl. gomacro's, error flags Incomplete/Implicit, nil/empty/non-empty slices, SliceExpr.Slice3 := Max != nil); "+
 		"files/trees using what ast2 does not know (type parameters, IndexListExpr, File.GoVersion) are skipped and counted as skipped:*; "+
 		"a node counts as non-trivial when Size() > 0 or it is an Ident/BasicLit; distinct by SHA-256 of (type, presence pattern of Get(i), atoms, slice lengths)")
-	c := &checker{rep: rep, rng: rng.Fork(), perType: map[string]int{}, ids: map[uintptr]int64{}, fails: map[string]int{}, maxCase: 1600}
+	c := &checker{rep: rep, rng: rng.Fork(), perType: map[string]int{}, ids: map[uintptr]int64{}, fails: map[string]int{}, maxCase: 1000}
 	if a.Thorough() {
 		c.maxCase = 8000
 	}
